@@ -245,7 +245,7 @@ def check_ops(ctx, prog, R, eff, lookup):
         f = ie[0]
         ctx.touch(f)
         calls_len = calls_to(prog, f, callee="abyssiniandb::DbXxxBase::len")
-        cl = prog.closures_of(f)
+        cl = [f] + prog.closures_of(f)
         cmp_ok = False
         for c in cl:
             for blk in c.blocks:
